@@ -28,6 +28,18 @@ def shard_valid(ctx, arg):
     for k in range(count):
         ms = [cfg.gen_method(rng, max_tries=1) for _ in range(3)]
         version = rng.choice([b"035", b"039", b"039"])
+        if k == 0:
+            # systematic: every non-branching opcode once with the largest and once with the smallest argument list its format allows
+            todo = [(op, n) for op in cfg.PLAIN_OPS for n in (5, 0)]
+            rng.shuffle(todo)
+            it = iter(todo)
+
+            def nxt():
+                op, n = next(it, (None, None))
+                return cfg.rand_plain(rng, op=op, nregs=n)
+            ms = [cfg.gen_method(rng, nslots=len(todo) // 2, max_tries=1, plain_source=nxt) for _ in range(3)]
+            version = b"039"
+            ctx.count("systematic_opcode_sweeps")
         data, w, names = cfg.make_dex(ms, version)
         try:
             dx = dex.DEX(data)
